@@ -20,6 +20,19 @@ var gonumPkgs = []string{
 // (never copies of repository files, which would mask edits).
 func staticOverlays(mode string) map[string]string {
 	out := map[string]string{}
+	// hook file added to package gen in every instrumented variant (build tag verif)
+	{
+		src := filepath.Join(*verifDir, "instr", "static", "zz_verif_hooks.go.txt")
+		b, err := os.ReadFile(src)
+		if err != nil {
+			fatal("static overlay %s missing", src)
+		}
+		dst := filepath.Join(*outDir, "static_zz_verif_hooks.go")
+		if err := os.WriteFile(dst, b, 0o644); err != nil {
+			fatal("%v", err)
+		}
+		out[filepath.Join(*repo, "pkg", "go", "gen", "zz_verif_hooks.go")] = dst
+	}
 	if mode != "maps" {
 		return out
 	}
